@@ -59,11 +59,21 @@ func DurationValueWithinP(p float32) Value {
 		if returnEarly {
 			return equal, ok
 		}
-		pd := float32(xd) / float32(yd)
-		if pd < 0 {
-			pd = -pd
+		// the difference is at most p percent of the smaller of the two magnitudes
+		diff, ax, ay := xd-yd, xd, yd
+		if diff < 0 {
+			diff = -diff
 		}
-		return pd < p, true
+		if ax < 0 {
+			ax = -ax
+		}
+		if ay < 0 {
+			ay = -ay
+		}
+		if ay < ax {
+			ax = ay
+		}
+		return float64(diff) <= float64(p)/100*float64(ax), true
 	}
 }
 
